@@ -16,7 +16,7 @@ I = z3.IntSort()
 REGION = z3.DeclareSort("Region")
 ORDER = z3.DeclareSort("Order")
 SLACK = z3.DeclareSort("Slack")
-reg = z3.Function("reg", I, REGION)
+REGARR = z3.ArraySort(I, REGION)
 slack_num = z3.Function("slack_num", z3.RealSort(), SLACK)
 DOM = z3.Function("DOM", ORDER, REGION, REGION, SLACK, z3.BoolSort())
 COV = z3.Function("COV", ORDER, REGION, REGION, SLACK, z3.BoolSort())
@@ -77,6 +77,7 @@ class AlgoState:
         self.S0 = z3.Const("S0", SM.SETSORT)
         self.P0 = z3.Const("P0", SM.SETSORT)
         self.U0 = z3.Const("U0", SM.SETSORT)
+        self.REG0 = z3.Const("REG0", REGARR)  # regions currently displayed: design index -> region
         self.order = z3.Const("order", ORDER)
         self.eps = z3.Real("eps")
         self.alpha_eps = z3.Const("cone_alpha_eps", SLACK)
@@ -88,7 +89,7 @@ class AlgoState:
         self.S = SM.SSet(self.S0, ctx, "S")
         self.P = SM.SSet(self.P0, ctx, "P")
         self.U = SM.SSet(self.U0, ctx, "U")
-        regions = SM.IndexMap(reg, "Region", self.N)
+        regions = RegionList(self.REG0, self.N)
         ds_fields = {"confidence_regions": regions, "cardinality": self.N,
                      "point_depths": ScalarMap(depth, self.N)}
         self.ds = SObj("DesignSpaceStub", ds_fields, tag="ds")
@@ -109,6 +110,9 @@ class AlgoState:
                  z3.ForAll([e], z3.Implies(z3.Select(self.U0, e), z3.Select(self.P0, e))),
                  self.eps >= 0, self.round0 >= 0, self.count0 >= 0)
 
+    def reg(self, i):
+        return z3.Select(self.REG0, i)
+
     def final(self, p):
         """(S', P', U') membership arrays, and the live self object, on a path."""
         from pyvc.symexec import find_obj
@@ -117,6 +121,27 @@ class AlgoState:
         P = o.fields["P"].mem
         U = o.fields["U"].mem if "U" in o.fields else self.U0
         return S, P, U, o
+
+
+class RegionList:
+    """design_space.confidence_regions: element i is the opaque region arr[i] (arr is part of the state)."""
+
+    def __init__(self, arr, n, attrs=None):
+        self.arr = arr
+        self.n = n
+        self.attrs = attrs
+
+    def getitem(self, ex, st, idx):
+        i = V.Z(idx)
+        ex.ctx.obligation("no-raise:IndexError", z3.And(i >= 0, i < self.n))
+        t = z3.Select(self.arr, i)
+        return Opaque("Region", t, self.attrs(t) if self.attrs else None)
+
+    def length(self, ex, st):
+        return self.n
+
+    def clone(self, memo):
+        return RegionList(self.arr, self.n, self.attrs)
 
 
 class ScalarMap:
@@ -195,10 +220,10 @@ def _setlevel_replay(t, A, m, method, exp, result, enable):
     tabs = {"DOM": {}, "COV": {}, "CHK": {}}
     for i in rng:
         for j in rng:
-            tabs["CHK"][(i, j)] = tb(CHK(A.order, reg(i), reg(j)))
+            tabs["CHK"][(i, j)] = tb(CHK(A.order, A.reg(i), A.reg(j)))
             for sk, stm in slacks.items():
-                tabs["DOM"][(sk, i, j)] = tb(DOM(A.order, reg(i), reg(j), stm))
-                tabs["COV"][(sk, i, j)] = tb(COV(A.order, reg(i), reg(j), stm))
+                tabs["DOM"][(sk, i, j)] = tb(DOM(A.order, A.reg(i), A.reg(j), stm))
+                tabs["COV"][(sk, i, j)] = tb(COV(A.order, A.reg(i), A.reg(j), stm))
     expected = {k: sorted(kk for kk in rng if tb(exp[k](z3.IntVal(kk)))) for k in exp}
     exp_res = sorted(kk for kk in rng if tb(result(z3.IntVal(kk)))) if result is not None else None
     exp_en = tb(enable) if enable is not None else None
@@ -236,3 +261,54 @@ def _setlevel_replay(t, A, m, method, exp, result, enable):
     L.append("if bad:\n    print('REPLAY-CONFIRMED obligation=%s (real method deviates from the specified transition)' % OBLIGATION)\n    raise SystemExit(1)")
     L.append("print('REPLAY-NOT-REPRODUCED obligation=%s' % OBLIGATION)\nraise SystemExit(4)")
     return L
+
+
+# ----------------------------------------------------------------------------------------------
+# the specified transitions as functions of the state arrays (shared by the method-level proofs of
+# C02/C03 and by the call-site contracts used when run_one_step is verified in C06)
+# ----------------------------------------------------------------------------------------------
+
+_q = z3.Int("q!w")
+_s = z3.Int("s!w")
+
+
+class Specs:
+    def __init__(self, A):
+        self.A = A
+
+    def slack(self, name):
+        A = self.A
+        return {"PaVeBa": A.alpha_eps, "PaVeBaGP": A.alpha_eps, "PaVeBaPartialGP": A.alpha_eps,
+                "VOGP": A.ustar_eps, "VOGP_AD": A.ustar_eps, "EpsilonPAL": slack_num(A.eps)}[name]
+
+    # --- C02
+    def cert_paveba(self, S, U, REG):
+        A = self.A
+        act = lambda e: z3.Or(z3.Select(S, e), z3.Select(U, e))
+        return lambda p: z3.Exists([_q], z3.And(act(_q), _q != p, DOM(A.order, z3.Select(REG, p), z3.Select(REG, _q), slack_num(0))))
+
+    def pess(self, S, P, REG):
+        A = self.A
+        W = lambda e: z3.Or(z3.Select(S, e), z3.Select(P, e))
+        return lambda p: z3.And(W(p), z3.Not(z3.Exists([_q], z3.And(W(_q), _q != p, CHK(A.order, z3.Select(REG, _q), z3.Select(REG, p))))))
+
+    def cert_vogp(self, PS, REG, sl):
+        A = self.A
+        return lambda p: z3.And(z3.Not(z3.Select(PS, p)),
+                                z3.Exists([_q], z3.And(z3.Select(PS, _q), DOM(A.order, z3.Select(REG, p), z3.Select(REG, _q), sl))))
+
+    # --- C03
+    def new(self, S, WIT, REG, sl):
+        """p in S that no other member of the witness set can still cover."""
+        A = self.A
+        wit = lambda e: z3.Or(*[z3.Select(w, e) for w in WIT])
+        coverable = lambda p: z3.Exists([_q], z3.And(wit(_q), _q != p, COV(A.order, z3.Select(REG, p), z3.Select(REG, _q), sl)))
+        return lambda e: z3.And(z3.Select(S, e), z3.Not(coverable(e)))
+
+    def useful(self, S, P, REG, sl):
+        A = self.A
+        return lambda p: z3.And(z3.Select(P, p), z3.Exists([_s], z3.And(z3.Select(S, _s), COV(A.order, z3.Select(REG, _s), z3.Select(REG, p), sl))))
+
+    def gate_open(self, S, enable):
+        A = self.A
+        return z3.Or(enable, z3.ForAll([_s], z3.Implies(z3.Select(S, _s), depth(_s) == A.maxd)))
